@@ -36,7 +36,7 @@ macro_rules! readonly_impl {
 
             #[inline(always)]
             pub fn is_full(&self) -> bool {
-                self.len() == self.values.len()
+                self.len() == self.values.len() || self.length.checked_add(1).is_none()
             }
 
             #[inline(always)]
